@@ -98,7 +98,9 @@ class Gen:
         self.rng = rng
         self.o = dict(max_depth=4, n_helpers=2, n_stmts=8, floats=True, matrices=True, structs=True, pointers=True,
                       atomics=False, workgroup=True, raw_shifts=False, f2i_safe=True, special_floats=False, loops=True,
-                      avoid=(), dyn_index=True)
+                      avoid=(), dyn_index=True,
+                      # default-neutral switches used by the text back-end checks (C05): see _safe_divisor, iclamp
+                      vec_select_cond=True, safe_int_div=False, ordered_int_clamp=False, switch_tail_if=True)
         if opts:
             self.o.update(opts)
         self.structs = []      # {"name", "members": [{"n", "t"}]}
@@ -251,6 +253,8 @@ class Gen:
             return self.expr(env, t, 0)
         if p == "arith":
             op = rng.choice(["+", "-", "*", "/", "%"] if t != "f32" else ["+", "-", "*"])
+            if op in ("/", "%") and self.o["safe_int_div"]:
+                return self._safe_div(op, t, self.expr(env, t, d), t, self.expr(env, t, d))
             return {"e": "bin", "op": op, "a": self.expr(env, t, d), "b": self.expr(env, t, d)}
         if p == "bit":
             return {"e": "bin", "op": rng.choice(["&", "|", "^"]), "a": self.expr(env, t, d), "b": self.expr(env, t, d)}
@@ -266,7 +270,9 @@ class Gen:
         if p == "builtin_int":
             f = rng.choice([x for x in ["abs", "min", "max", "clamp", "countOneBits", "countLeadingZeros", "countTrailingZeros",
                                         "reverseBits", "firstLeadingBit", "firstTrailingBit", "extractBits", "insertBits"]
-                            if x not in self.o["avoid"]])
+                            if x not in self.o["avoid"] and x + ":" + t not in self.o["avoid"]])
+            if f == "clamp" and self.o["ordered_int_clamp"]:
+                return self.fclamp(env, t, d)
             if f in ("min", "max"):
                 return {"e": "builtin", "f": f, "args": [self.expr(env, t, d), self.expr(env, t, d)]}
             if f == "clamp":
@@ -295,9 +301,10 @@ class Gen:
             return {"e": "bitcast", "t": t, "a": self.expr(env, src, d)}
         if p == "select":
             return {"e": "builtin", "f": "select", "args": [self.expr(env, t, d), self.expr(env, t, d),
-                                                          self.expr(env, "bool" if not is_vec(t) or rng.chance(1, 2) else ["vec", t[1], "bool"], d)]}
+                                                          self.expr(env, "bool" if not is_vec(t) or rng.chance(1, 2) or not self.o["vec_select_cond"]
+                                                                    else ["vec", t[1], "bool"], d)]}
         if p == "call":
-            fs = [f for f in self.funcs if f["ret"] == t and f["n"] in env and self.no_calls == 0]
+            fs = [f for f in self.funcs if f["ret"] == t and f["n"] in env and self.no_calls == 0 and self._callable(f)]
             if fs:
                 f = rng.choice(fs)
                 args = [self.arg_for(env, q["t"], d) for q in f["params"]]
@@ -325,9 +332,12 @@ class Gen:
             ops = ["+", "-", "*"] + (["/", "%", "&", "|", "^"] if t[2] != "f32" else [])
             op = rng.choice(ops)
             a = self.expr(env, t, d)
-            b = self.expr(env, t if rng.chance(2, 3) or op in ("&", "|", "^") else t[2], d)
+            bt = t if rng.chance(2, 3) or op in ("&", "|", "^") else t[2]
+            b = self.expr(env, bt, d)
             if rng.chance(1, 2) and not is_scalar(b) is False:
                 pass
+            if op in ("/", "%") and self.o["safe_int_div"]:
+                return self._safe_div(op, t, a, bt, b)
             return {"e": "bin", "op": op, "a": a, "b": b}
         if p == "vcmp":
             st = self.scalar()
@@ -336,9 +346,10 @@ class Gen:
         if p == "vbuiltin":
             if t[2] == "bool":
                 return {"e": "un", "op": "!", "a": self.expr(env, t, d)}
-            f = rng.choice(["abs", "min", "max", "clamp"] + (["floor", "ceil"] if t[2] == "f32" else ["countOneBits"]))
+            f = rng.choice([x for x in ["abs", "min", "max", "clamp"] + (["floor", "ceil"] if t[2] == "f32" else ["countOneBits"])
+                            if x + ":" + t[2] not in self.o["avoid"]])
             n = {"min": 2, "max": 2, "clamp": 3}.get(f, 1)
-            if f == "clamp" and t[2] == "f32":
+            if f == "clamp" and (t[2] == "f32" or self.o["ordered_int_clamp"]):
                 return self.fclamp(env, t, d)
             return {"e": "builtin", "f": f, "args": [self.expr(env, t, d) for _ in range(n)]}
         if p == "matvec" and self.o["matrices"]:
@@ -354,6 +365,19 @@ class Gen:
         return {"e": "builtin", "f": "clamp", "args": [self.expr(env, t, d),
                                                         {"e": "builtin", "f": "min", "args": [a, b]},
                                                         {"e": "builtin", "f": "max", "args": [a, b]}]}
+
+    def _safe_div(self, op, t, a, bt, b):
+        """option safe_int_div: integer `a / b`, `a % b` (t: type of a and of the result, bt: type of b, the same or
+        its component type) on operands for which every target language defines the result: divisor in 1..65535,
+        left operand of a signed % non-negative"""
+        k = t if is_scalar(t) else t[2]
+
+        def splat(ty, v):
+            return lit(k, v) if is_scalar(ty) else {"e": "cons", "t": ty, "args": [lit(k, v)]}
+        b = {"e": "bin", "op": "|", "a": {"e": "bin", "op": "&", "a": b, "b": splat(bt, 0xFFFF)}, "b": splat(bt, 1)}
+        if op == "%" and k == "i32":
+            a = {"e": "bin", "op": "&", "a": a, "b": splat(t, 0x7FFFFFFF)}
+        return {"e": "bin", "op": op, "a": a, "b": b}
 
     def arg_for(self, env, t, d):
         if isinstance(t, list) and t[0] == "ptr":
@@ -426,9 +450,94 @@ class Gen:
     def block(self, env, n, depth, in_loop, ret_t, in_switch=False, allow_return=True):
         env = dict(env)
         out = []
+        if (in_loop or in_switch) and getattr(self, "_in_helper", False) and not self.o.get("helper_ret_nested", True):
+            allow_return = False      # option helper_ret_nested=False (C13): no `return` inside a loop or switch of a helper
+        saved, self._in_loop = getattr(self, "_in_loop", False), in_loop     # read by _callable
         for _ in range(n):
             out += self.stmt(env, depth, in_loop, ret_t, in_switch, allow_return)
+        self._in_loop = saved
         return out
+
+    def _callable(self, f):
+        """option loop_calls="nolocals" (C13): inside loops only helpers without local variables (their own or those of
+        the helpers they call) are called"""
+        return not (self.o.get("loop_calls", "all") == "nolocals" and getattr(self, "_in_loop", False)
+                    and getattr(self, "_fn_locals", {}).get(f["n"], False))
+
+    def _note_locals(self, name, body):
+        """records whether helper `name` has local variables, its own or those of the helpers it calls (for _callable)"""
+        import json
+        txt = json.dumps(body)
+        tab = self.__dict__.setdefault("_fn_locals", {})
+        tab[name] = '"s": "var"' in txt or any(v and '"f": "%s"' % n in txt for n, v in tab.items())
+
+    def _switch_extras(self, env, st, spare, cases):
+        """options switch_multi / switch_calls (C13).  switch_multi: selector values not used yet join the existing
+        clauses at a random position (`case 4u, 2u, 0u:`), and one time in four `default` joins a clause
+        (`case 1u, default:`); switch_calls: one case body starts with a call of a helper (call statement or
+        `x = h(..);`).  Decisions are drawn from a forked generator: apart from fresh names the rest of the program is
+        the one generated without these options."""
+        main = self.rng
+        r = self.rng = main.fork("switch_extras")
+        try:
+            named = [c for c in cases if c["sel"] != ["default"]]
+            if self.o.get("switch_multi") and named:
+                for v in spare:
+                    if r.chance(2, 3):
+                        c = r.choice(named)
+                        c["sel"].insert(r.below(len(c["sel"]) + 1), lit(st, v))
+                if r.chance(1, 4):
+                    c = r.choice(named)
+                    cases[:] = [x for x in cases if x["sel"] != ["default"]]
+                    c["sel"].insert(r.below(len(c["sel"]) + 1), "default")
+            if self.o.get("switch_calls") and self.no_calls == 0:
+                for f in r.shuffle([f for f in self.funcs if f["n"] in env and self._callable(f)])[:3]:
+                    args = [self.arg_for(env, q["t"], 1) for q in f["params"]]
+                    if any(a is None for a in args):
+                        continue
+                    call = {"e": "call", "f": f["n"], "args": args}
+                    lvs = self.lvalues(env, want=f["ret"]) if f["ret"] is not None else []
+                    if f["ret"] is None:
+                        s = {"s": "callstmt", "f": f["n"], "args": args}
+                    elif lvs:
+                        g = [x for x in lvs if self._root_kind(env, x[0]) == "gvar_rw"]
+                        s = {"s": "assign", "l": r.choice(g if g and r.chance(2, 3) else lvs)[0], "e": call}
+                    else:
+                        s = {"s": "let", "n": self.fresh("l"), "t": f["ret"], "e": call}
+                    r.choice(cases)["body"].insert(0, s)
+                    break
+        finally:
+            self.rng = main
+
+    def _small_helpers(self, env):
+        """option small_helpers (C13): one or two helpers s0, s1 of the shape every inlining policy accepts: scalar
+        parameters, no local variables, no control flow, no calls; `return a OP e;`, one time in two after one store to a
+        writable module-scope variable.  Drawn from a forked generator."""
+        main = self.rng
+        r = self.rng = main.fork("small_helpers")
+        self.no_calls += 1
+        try:
+            for k in range(r.range(1, 2)):
+                name = "s%d" % k
+                self.new_function_scope()
+                t = r.choice(["u32", "i32"] + (["f32"] if self.o["floats"] else []))
+                params = [{"n": "a%d_%d" % (k, i), "t": t if i == 0 else self.scalar()} for i in range(r.range(1, 2))]
+                fenv = dict(env)
+                for q in params:
+                    fenv[q["n"]] = (q["t"], "let")
+                self._idx_sources = [lit("u32", r.below(16))] + [{"e": "var", "n": q["n"]} for q in params if q["t"] == "u32"]
+                body = []
+                lvs = [x for x in self.lvalues(fenv) if x[1] in ("i32", "u32", "f32")]
+                if lvs and r.chance(1, 2):
+                    l, lt = r.choice(lvs)
+                    body.append({"s": "assign", "l": l, "e": self.expr(fenv, lt, 2)})
+                op = r.choice(["+", "-", "*"] + (["^", "|"] if t != "f32" else []))
+                body.append({"s": "return", "e": {"e": "bin", "op": op, "a": {"e": "var", "n": params[0]["n"]}, "b": self.expr(fenv, t, 2)}})
+                self.funcs.append({"n": name, "params": params, "ret": t, "body": body})
+                env[name] = (t, "fn")
+        finally:
+            self.no_calls -= 1
+            self.rng = main
 
     def stmt(self, env, depth, in_loop, ret_t, in_switch, allow_return):
         rng = self.rng
@@ -442,7 +551,7 @@ class Gen:
                 choices += ["for", "loop", "while"]
         if in_loop:
             choices += ["break_if", "continue_if"]
-        if any(f["ret"] is None for f in self.funcs if f["n"] in env):
+        if any(f["ret"] is None for f in self.funcs if f["n"] in env and self._callable(f)):
             choices.append("callstmt")
         if allow_return and rng.chance(1, 12):
             choices.append("return_if")
@@ -497,6 +606,9 @@ class Gen:
                 rhs = self.expr(env, t, d - 2)
             finally:
                 self.no_calls -= 1
+            if op in ("/", "%") and self.o["safe_int_div"]:
+                # (the left operand is the variable itself: x = x op rhs' spelled out)
+                return [{"s": "assign", "l": l, "e": self._safe_div(op, t, l, t, rhs)}]
             return [{"s": "compound", "op": op, "l": l, "e": rhs}]
         if c == "if":
             return [{"s": "if", "c": self.expr(env, "bool", d - 1),
@@ -505,6 +617,8 @@ class Gen:
         if c == "switch":
             st = rng.choice(["i32", "u32"])
             sel = {"e": "bin", "op": "%", "a": self.expr(env, st, d - 2), "b": lit(st, 5)}
+            if self.o["safe_int_div"] and st == "i32":
+                sel["a"] = {"e": "bin", "op": "&", "a": sel["a"], "b": lit("i32", 0x7FFFFFFF)}
             vals = rng.shuffle(list(range(0, 5)))
             cases = []
             k = 0
@@ -517,6 +631,10 @@ class Gen:
             cases.insert(rng.below(len(cases) + 1), dflt)
             if rng.chance(1, 3) and cases[0]["sel"] != ["default"]:
                 cases[0]["body"].append({"s": "break"})
+            if self.o["switch_tail_if"]:
+                self._switch_tail_if(env, cases, in_loop)
+            if self.o.get("switch_multi") or self.o.get("switch_calls"):
+                self._switch_extras(env, st, vals[k:], cases)     # options of C13, off by default
             return [{"s": "switch", "e": sel, "cases": cases}]
         if c == "block":
             return [{"s": "block", "body": self.block(env, rng.range(1, 3), depth - 1, in_loop, ret_t, in_switch, allow_return)}]
@@ -566,7 +684,7 @@ class Gen:
         if c == "continue_if":
             return [{"s": "if", "c": self.expr(env, "bool", d - 2), "then": [{"s": "continue"}], "else": []}]
         if c == "callstmt":
-            f = rng.choice([f for f in self.funcs if f["ret"] is None and f["n"] in env])
+            f = rng.choice([f for f in self.funcs if f["ret"] is None and f["n"] in env and self._callable(f)])
             args = [self.arg_for(env, q["t"], d - 2) for q in f["params"]]
             if any(a is None for a in args):
                 return []
@@ -575,6 +693,42 @@ class Gen:
             return [{"s": "if", "c": self.expr(env, "bool", d - 2),
                      "then": [{"s": "return", "e": self.expr(env, ret_t, d - 2) if ret_t is not None else None}], "else": []}]
         return []
+
+    def _switch_tail_if(self, env, cases, in_loop):
+        """one time in two, a case that is not the last one gets a final `if c { x = e; break; }` (or the mirrored
+        `if c { x = e; } else { y = f; break; }`, or `continue` inside a loop): an if with exactly ONE arm that leaves
+        the case, so whether control reaches the end of the case body depends on run-time data.  Decisions are drawn
+        from a forked generator and no names are introduced: the rest of the program is the one generated without
+        this production."""
+        main = self.rng
+        r = main.fork("switch_tail_if")
+        if not r.chance(1, 2):
+            return
+        cands = [c for c in cases[:-1] if not (c["body"] and c["body"][-1].get("s") in ("break", "continue", "return"))]
+        if not cands:
+            return
+        self.rng = r
+        self.no_calls += 1
+        try:
+            lvs = self.lvalues(env)
+            if not lvs:
+                return
+            d = max(1, self.o["max_depth"] - 2)
+
+            def store():
+                g = [x for x in lvs if self._root_kind(env, x[0]) == "gvar_rw"]
+                l, t = r.choice(g if g and r.chance(2, 3) else lvs)
+                return {"s": "assign", "l": l, "e": self.expr(env, t, d)}
+            leave = {"s": "continue"} if in_loop and r.chance(1, 3) else {"s": "break"}
+            cond = self.expr(env, "bool", d)
+            if r.chance(2, 3):
+                tail = {"s": "if", "c": cond, "then": [store(), leave], "else": []}
+            else:
+                tail = {"s": "if", "c": cond, "then": [store()], "else": [store(), leave]}
+            r.choice(cands)["body"].append(tail)
+        finally:
+            self.no_calls -= 1
+            self.rng = main
 
     def _type_of_base(self, env, e):
         """type of the base expression of an index/member access path (None when unknown)"""
@@ -667,6 +821,8 @@ class Gen:
                                "body": [{"s": "compound", "op": "+", "l": {"e": "idx", "a": {"e": "var", "n": "gtick"}, "i": lit("i32", 0)}, "e": {"e": "var", "n": "k"}},
                                         {"s": "return", "e": {"e": "bin", "op": "+", "a": {"e": "var", "n": "k"}, "b": lit("u32", 1)}}]})
             self.tick = "tick"
+        if self.o.get("small_helpers"):
+            self._small_helpers(env)      # option of C13, off by default
         # helper functions (callable from later functions and main; no recursion)
         for k in range(rng.range(0, self.o["n_helpers"])):
             self.helper(env, k)
@@ -726,7 +882,7 @@ class Gen:
             if self.o["pointers"] and rng.chance(1, 4):
                 t = ["ptr", "function", self.value_type(1)]
             else:
-                t = self.value_type(1)
+                t = self.value_type(1) if self.o.get("agg_params", True) else self.scalar(allow_bool=True)
             pn = "p%d_%d" % (k, i)
             params.append({"n": pn, "t": t})
             fenv[pn] = (t, "let")
@@ -748,9 +904,12 @@ class Gen:
             n2 = self.fresh("l")
             pro.append({"s": "let", "n": n2, "t": ["ptr", "function", t1], "e": {"e": "addr", "a": {"e": "var", "n": n1}}})
             fenv[n2] = (["ptr", "function", t1], "let")
+        self._in_helper = True       # read by block (option helper_ret_nested)
         body = pro + self.block(fenv, rng.range(1, 4), 2, False, ret)
+        self._in_helper = False
         if ret is not None:
             body.append({"s": "return", "e": self.expr(fenv, ret, 2)})
+        self._note_locals(name, body)
         self.funcs.append({"n": name, "params": params, "ret": ret, "body": body})
         env[name] = (ret, "fn")
 
